@@ -176,6 +176,7 @@ type env struct {
 	// the complete answer by the subset relation (see diffLimited) instead of equality
 	cut   *cutSpec
 	picks map[string]bool // see cutSpec.picks: over all layouts of the current query
+	order *orderModel     // the current query has an order by clause: the key of every group with values
 }
 
 // cutSpec: under the current layout the complete answer of the query has more series (groups) than its limit.
@@ -189,6 +190,24 @@ type cutSpec struct {
 	data   int             // groups with values (= the model's groups)
 	picks  map[string]bool // the sets of groups with values that answers held so far (sorted keys joined)
 	short  int             // accepted answers with fewer series than the limit
+	// order by: the statement says which groups with values the cut answer holds (orderby_test.go)
+	order   *orderModel
+	verdict *orderVerdict
+}
+
+// newCut: the limit cuts the complete answer (its series under the layout: `series`).
+func newCut(q *querySpec, series map[string]bool, m *modelOut, om *orderModel, picks map[string]bool) *cutSpec {
+	c := &cutSpec{limit: q.effLimit(), series: len(series), data: len(m.groupKeys()), picks: picks}
+	if om != nil {
+		valueless := 0
+		for k := range series {
+			if _, ok := om.keys[k]; !ok {
+				valueless++
+			}
+		}
+		c.order, c.verdict = om, om.verdict(valueless, c.limit)
+	}
+	return c
 }
 
 // rawKeys: the series of a result set (also those without values).
@@ -561,6 +580,15 @@ func diffLimited(full node.Result, rs *commonmodels.ResultSet, gotErr error, m *
 	if d != "" {
 		msgs = append(msgs, "a returned group differs from the same group of the complete answer (extra = no such cell / group there):", d)
 	}
+	if cut.order != nil {
+		held := map[string]bool{}
+		for k := range got {
+			held[k] = true
+		}
+		if o := cut.order.check(cut.verdict, held, cut.limit); o != "" {
+			msgs = append(msgs, o)
+		}
+	}
 	if len(msgs) > 0 {
 		msgs = append(msgs, "answer:\n"+got.String()+"the groups of the answer in the complete answer:\n"+sub.String())
 	} else {
@@ -586,10 +614,12 @@ type caseBudget struct {
 	layouts, queries int
 	midSample        int // permutations tried through the intermediate node when there are 4 leaves (0 = all)
 	scheds           int // drawn send-interleaved schedules per number of leaves (run at the root; the first one also at the intermediate node)
+	// orderBy: tie-prone data, every statement has an order by clause (TestOrderByLayoutIndependence)
+	orderBy bool
 }
 
 func runCase(t *rapid.T, group string, b caseBudget) {
-	d := genDataset(t)
+	d := genDatasetWith(t, b.orderBy)
 	// Storage state is no part of this property (C11/C03): every layout keeps its rows in the memory
 	// database. (On the tree the harness was written against, flushing loses the points of one of two
 	// families of a shard and can store a field of a series that reports only some fields under
@@ -602,7 +632,7 @@ func runCase(t *rapid.T, group string, b caseBudget) {
 	var queries []*querySpec
 	nq := rapid.IntRange(1, b.queries).Draw(t, "nQueries")
 	for i := 0; i < nq; i++ {
-		if q := genQuery(t, d, group); q != nil {
+		if q := genQueryWith(t, d, group, b.orderBy); q != nil {
 			queries = append(queries, q)
 		}
 	}
@@ -649,7 +679,10 @@ func runCase(t *rapid.T, group string, b caseBudget) {
 		// A group-by query is compared with its complete answer: the same statement with a limit that does
 		// not cut. Whether the limit (explicit, or the default of the parser) cuts is decided per layout by
 		// the number of series of the complete answer there (see cutSpec).
-		e.cut, e.picks = nil, map[string]bool{}
+		e.cut, e.picks, e.order = nil, map[string]bool{}, nil
+		if len(q.OrderBy) > 0 {
+			e.order = newOrderModel(d, q, m)
+		}
 		refSQL := sql
 		if len(q.GroupBy) > 0 {
 			refSQL = q.sqlWithLimit(d, completeLimit)
@@ -660,6 +693,7 @@ func runCase(t *rapid.T, group string, b caseBudget) {
 		var refSeries map[string]bool
 		for attempt := 1; ; attempt++ {
 			rs, rerr := e.nc.Query(layouts[0].db, refSQL)
+			rs, rerr = e.emptyOrderBy(rs, rerr, m)
 			ref = node.Result{}
 			if rerr != nil {
 				if !strings.Contains(rerr.Error(), "not found") {
@@ -680,9 +714,9 @@ func runCase(t *rapid.T, group string, b caseBudget) {
 		}
 		if len(q.GroupBy) > 0 && len(refSeries) > q.effLimit() {
 			// the cut answer of the reference layout itself
-			e.cut = &cutSpec{limit: q.effLimit(), series: len(refSeries), data: len(m.groupKeys()), picks: e.picks}
+			e.cut = newCut(q, refSeries, m, e.order, e.picks)
 			if msg, _ := e.repeat(func() (*commonmodels.ResultSet, error) { return e.nc.Query(layouts[0].db, sql) }, ref, m); msg != "" {
-				t.Fatalf("C12 violated: the answer the limit cuts is no part of the complete answer (1 shard, 1 leaf)\nquery:    %s\ncomplete: %s\n%s\ncomplete answer:\n%sdata: %s",
+				t.Fatalf("C12 violated: the answer the limit cuts is no part of the complete answer, or not the part the order by clause names (1 shard, 1 leaf)\nquery:    %s\ncomplete: %s\n%s\ncomplete answer:\n%sdata: %s",
 					sql, refSQL, msg, ref, dataJSON)
 			}
 			e.cut = nil
@@ -699,6 +733,7 @@ func runCase(t *rapid.T, group string, b caseBudget) {
 			qClasses = append(qClasses, "query:has-order-ambiguous-first/last-cells")
 		}
 		qClasses = append(qClasses, "query:limit="+q.LimitKind)
+		qClasses = append(qClasses, q.orderClasses()...)
 		if d.Wide && q.Metric == 0 {
 			qClasses = append(qClasses, "query:over-the-wide-metric")
 		}
@@ -833,7 +868,10 @@ func (e *env) runLayout(q *querySpec, sql string, m *modelOut, ref node.Result, 
 		}
 		switch {
 		case len(series) > q.effLimit():
-			e.cut = &cutSpec{limit: q.effLimit(), series: len(series), data: data, picks: e.picks}
+			e.cut = newCut(q, series, m, e.order, e.picks)
+			if e.cut.order != nil {
+				classes = append(classes, e.cut.verdict.classes(e.cut.order, e.cut.limit)...)
+			}
 			classes = append(classes, "limit:cuts-the-answer", "limit:cuts:series/limit="+bucket(len(series)*10/e.cut.limit, 12, 15, 20, 30, 50)+"(x0.1)")
 			if q.Limit > 0 {
 				classes = append(classes, "limit:cuts:explicit-limit")
@@ -1048,11 +1086,24 @@ func (e *env) runLayout(q *querySpec, sql string, m *modelOut, ref node.Result, 
 	e.runScheduled(q, sql, m, ref, l, mscheds, "mid0:1", []string{"mid0:1"}, kinds, nData, classes, dataJSON, fail)
 }
 
+// emptyOrderBy: an order by item that is a plain field is resolved by the root through the field list of the
+// responses (buildOrderBy); when no response carried one (every node answered not-found) and the root does
+// not report not-found itself, it reports "cannot parse order by function". For an answer that is empty by the
+// written points this is the same observation as not-found / an empty result set.
+func (e *env) emptyOrderBy(rs *commonmodels.ResultSet, err error, m *modelOut) (*commonmodels.ResultSet, error) {
+	if err != nil && e.order != nil && len(m.present) == 0 && strings.Contains(err.Error(), "cannot parse order by function") {
+		ev.Class(e.group, "info:orderby:empty-answer-reported-as-cannot-parse-order-by-function", 1)
+		return nil, nil
+	}
+	return rs, err
+}
+
 // repeat executes the query and compares with the reference; a disagreement is returned only if
 // it shows in `executions` executions in a row (see executions).
 func (e *env) repeat(exec func() (*commonmodels.ResultSet, error), ref node.Result, m *modelOut) (msg string, ambiguousDiffers int) {
 	for attempt := 1; ; attempt++ {
 		rs, err := exec()
+		rs, err = e.emptyOrderBy(rs, err, m)
 		if e.cut != nil {
 			msg, ambiguousDiffers = diffLimited(ref, rs, err, m, e.cut)
 		} else {
